@@ -310,30 +310,44 @@ def phase(case, ctx, rng, st, am, label, held, last):
     if s2.untyped_storage().data_ptr() == s1.untyped_storage().data_ptr() or s3.untyped_storage().data_ptr() in (
             s1.untyped_storage().data_ptr(), s2.untyped_storage().data_ptr()):
         ctx.violation("result-aliased", "two non-overwriting sampling calls returned tensors that share storage", tags=tags)
-    # random start
+    # random start: the start state the library chose is learnt at the boundary of rbm_am.gibbs_steps (L1 recorder on the
+    # instance), never guessed from the draws (a constant-probability latent draw is indistinguishable from a start draw).
+    # The statement fixes the law *from any start state*, not the distribution of the library-chosen start.
     mon = monitors.DispatchMonitor(tap_bernoulli=True)
     ns = 5
-    with mon:
-        res = ctx.lib("sample(random start)", st.sample, 2, num_samples=ns, tags=tags)
+    glog = []
+    orig_gs = rbm.gibbs_steps
+
+    def gs_rec(*a_, **k_):
+        init_ = a_[1] if len(a_) > 1 else k_.get("initial_state")
+        glog.append((len(mon.bern), init_.detach().clone()))
+        return orig_gs(*a_, **k_)
+
+    object.__setattr__(rbm, "gibbs_steps", gs_rec)
+    try:
+        with mon:
+            res = ctx.lib("sample(random start)", st.sample, 2, num_samples=ns, tags=tags)
+    finally:
+        object.__delattr__(rbm, "gibbs_steps")
     ctx.count("tapped_bernoulli_draws", len(mon.bern))
     if tuple(res.shape) != (ns, nv):
         ctx.violation("shape", f"sample(k, num_samples={ns}) returned shape {tuple(res.shape)}", tags=tags)
-    elif mon.bern:
+    else:
         rn = res.numpy()
         if not np.all((rn == 0) | (rn == 1)):
             ctx.violation("not-binary", "sample(random start) returned values outside {0,1}", tags=tags)
-        _, p0, r0 = mon.bern[0]
-        # The statement fixes the law *from any start state*, not the distribution of the library-chosen start, so the
-        # start draw is only used to learn the start state (when it is observable as a constant-probability draw).
-        if tuple(p0.shape) == (ns, nv) and bool((p0 == p0.reshape(-1)[0]).all()):
-            ctx.seen("random_start_probability", round(float(p0.reshape(-1)[0]), 6))
-            final = automaton(mon.bern[1:], r0.numpy().astype(float), 2, "sample(random start)")
-            if final is not None and not np.array_equal(final, rn):
-                ctx.violation("result-not-last-draw", "sample(random start) did not return the last visible draw", tags=tags)
+        if glog and tuple(glog[0][1].shape) == (ns, nv) and len(mon.bern) > glog[0][0]:
+            n0, v0_ = glog[0]
+            s0 = v0_.numpy().astype(float)
+            if not np.all((s0 == 0) | (s0 == 1)):
+                ctx.violation("not-binary", "sample(random start) started its chains from a non-binary state", tags=tags)
+            else:
+                ctx.count("random_start_runs_checked")
+                final = automaton(mon.bern[n0:], s0, 2, "sample(random start)")
+                if final is not None and not np.array_equal(final, rn):
+                    ctx.violation("result-not-last-draw", "sample(random start) did not return the last visible draw", tags=tags)
         else:
             ctx.count("random_start_not_observable")
-    else:
-        ctx.count("tap_saw_no_draws_for_random_start")
 
     # ------------------------------------------------------------ monitor 3
     if last and stat_case(case):
